@@ -52,6 +52,9 @@ def run(F, rep, tier):
     # strings pass because `a + b` looked at the pair first (shared with C03/C07)
     import c07
     c07.guard_discipline(F, rep)
+    # what a block's last expression returns (`ret` inside an if that ends the block) is part of what the block returns
+    import core
+    core.borrow(rep, c03.obligations, lambda o: o["key"].startswith("expression_block|"), F)
     contradiction_info(F, rep)
     # "no read of an uninitialised variable": a global is initialised before anything that mentions it runs - every mention
     # is a dependency edge (the C11 instances)
@@ -485,13 +488,26 @@ def trailing_value_is_the_return(F, rep, rule):
     n = 0
     for arm, alt in tc.arm_of(F, fexpr, E, "Function"):
         blocks = [c for c in nodes(arm["body"], "MethodCall") if callee(c) == TC + "expression_block"]
-        for c in nodes(arm["body"], "MethodCall"):
-            if callee(c) != TC + "unify_option" or len(c["args"]) < 4:
+        for c, parents in walk(arm["body"]):
+            if c.get("k") != "MethodCall" or callee(c) != TC + "unify_option" or len(c["args"]) < 4:
                 continue
             ds = [tc.describe(fl, a) for a in c["args"][2:4]]
             if not any(d.startswith(("blockvalue:", "blockret:")) or "block" in d for d in ds):
                 continue
             n += 1
+            # the comparison of the trailing value with the `ret`s is made whenever the function is declared to return something:
+            # the only test that may stand in front of it is the one on the declared type (`ret.is_void()`)
+            if any(d.startswith("blockvalue:") for d in ds):
+                extra = []
+                for p_ in parents:
+                    if p_.get("k") == "If" and any(x is c for b_ in (p_.get("t"), p_.get("e")) if b_ is not None for x in nodes(b_)):
+                        ct = pp(p_["c"])
+                        if "is_void" not in ct:
+                            extra.append(ct[:60])
+                rep.ob(rule, "expression|Function|trailing-value-always-compared", not extra,
+                       "the trailing value is compared with the explicit returns whenever a value is returned" if not extra else
+                       "the comparison of the body's trailing value with its `ret`s is skipped under a condition (`%s`): "
+                       "`fn n: int -> int do if n < 0 do ret 0 end \"many\" end` is accepted and returns a string" % extra[0], line_of(c))
         # every local that receives the value half: must be bound directly by the let that destructures expression_block's result
         value_locals = []
         for st in nodes(arm["body"], "Let"):
